@@ -21,6 +21,10 @@ open Parsley Parsley.Obj Parsley.Spelling Parsley.DocSpec Driver
                                     number (second pass only), 6 plain object listed under an unused number, 7 backward-
                                     /Length stream listed under an unused number; all must be rejected; 8 = uncorrupted
                                     control, must load exactly
+      ret  <hex> <seed> <layout> <A> <B> <target> <placement>   the `sys` document with ONE entry - of B - aimed at object A,
+                                    which keeps its own entry (two entries share an offset), or into A, at its `endobj`, at the
+                                    section, at the header: must be rejected; target 7 = control (see `RetSel`, `genRet`)
+      reth <hex> <seed> <revisions> <index>   the same across the revisions of a history (C04; Driver/C04.lean `genReth`)
       w0   <hex> <seed> <variant>   purpose-built: a cross-reference stream WITHOUT a type field (/W [0 n m], every row is
                                     type 1 by default, /Index leaving out object 0): variant even = the stream is the
                                     file's cross-reference section, odd = hybrid file whose /XRefStm stream lists some
@@ -881,11 +885,279 @@ def judgeGarb (sc : Scene) (hex : String) (lk ll tk : Nat) (impl : String) : Str
     else if hofs == some (toString ll) then "ok"
     else s!"bad wrong-header-offset reported {hofs.getD "-"} want {ll}"
 
+/-! ### identity mismatch by RETARGETING (`ret`; over histories: `reth` in Driver/C04.lean)
+
+    The `mism` / `sys` corruptions exchange the offsets of two entries or list an object under another number: every
+    offset still occurs once.  Here ONE entry - of object B - is aimed somewhere else while every other entry stays
+    correct, so that (target `own`) two entries carry the SAME offset: B's entry and the entry of the object A that is
+    really written there.  Targets: the offset A's own entry carries (`own`), the other legal offset of A (start of its
+    padding / first digit of its number: `alt`), one byte into A's number (`inside`), A's `endobj` keyword, the
+    cross-reference section itself (`xref` keyword / the cross-reference stream object), the /XRefStm stream object of a
+    hybrid file, the header (offset 0: the header line is a comment, the first object of the file is found).  B is an
+    object of the file (its own object is still written, no entry points at it any more) or a number no object carries
+    (an entry is ADDED).  Every ordered pair (A, B) of file-level objects occurs, so both walk orders do (the loader
+    walks a section in number order: A before B and B before A); in hybrid files the entries of A and of B are each
+    written into the table or into the /XRefStm stream (table entries are walked first).  All of these must be
+    REJECTED: the object found at the offset carries another identifier than the entry (or no object is found).  That
+    the case is a mismatch is decided from the BYTES by `DocSpec.headerAt` (the identifier spelled at the offset is not
+    B's), never by the loader model; a control (`none`: nothing retargeted, same placement) must load exactly.
+
+    The encoder `renderRevT` is `DocSpec.renderRev` with two more parameters (it is equal to it for the empty `Tweak`);
+    it lives here because Spec/Doc.lean is the subject of the generator-link theorems. -/
+
+/-- entries set (or added) after the encoder computed them, and - hybrid - the numbers whose in-use entry is written
+    into the /XRefStm stream instead of the table -/
+structure Tweak where
+  ents : List (Nat × Nat × Nat) := []       -- (number, generation, offset)
+  toStream : List Nat := []
+deriving Inhabited, BEq
+
+/-- where an object was written -/
+structure Place where
+  num : Nat
+  gen : Nat
+  ofs : Nat        -- the offset its own entry carries
+  padAt : Nat      -- start of its padding
+  numAt : Nat      -- first digit of its object number
+  endAt : Nat      -- its `endobj` keyword
+deriving Inhabited
+
+/-- where a revision put things -/
+structure RevMap where
+  objs : List Place
+  sect : Nat       -- what `startxref` / a newer /Prev names: `xref` keyword or cross-reference stream object
+  stm : Nat        -- hybrid: the /XRefStm stream object (otherwise = sect)
+deriving Inhabited
+
+def objPlaces : List DObj → Nat → List Place
+  | [], _ => []
+  | o :: t, pos =>
+    let (b, ofs, _) := renderObj o pos
+    ⟨o.num, o.gen, ofs, pos, pos + o.pad.length, pos + b.length - 7⟩ :: objPlaces t (pos + b.length)
+
+def setEnts (ents : List (Nat × Nat × Nat)) (us : List (Nat × Nat × Nat)) : List (Nat × Nat × Nat) :=
+  ents.foldl (fun us e => if us.any (·.1 == e.1) then us.map (fun u => if u.1 == e.1 then e else u) else us ++ [e]) us
+
+/-- `DocSpec.renderRev` with a `Tweak` -/
+def renderRevT (r : Rev) (t : Tweak) (pos : Nat) (prev : Option Nat) : Bytes × Nat × Said × RevMap :=
+  let lay := r.lay
+  let (body, us0, vals) := renderObjs r.objs pos
+  let places := objPlaces r.objs pos
+  let us := setEnts t.ents (relabelUse lay.relabel (swapOfs lay.swap us0))
+  let p1 := pos + body.length
+  let uses : List XE := us.map fun u => ⟨u.1, 1, u.2.2, u.2.1⟩
+  let mems : List XE := r.members.map fun m => ⟨m.1, 2, m.2.1, m.2.2.1⟩
+  let frees : List XE := (if r.zero then [⟨0, 0, 0, 65535⟩] else []) ++ r.frees.map fun f => ⟨f.1, 0, 0, f.2⟩
+  let memVals : List (DocSpec.ObjId × Obj) := r.members.map fun m => ((m.1, 0), m.2.2.2)
+  let maxNum := maxOf ((uses ++ mems ++ frees).map (·.num) ++ [lay.xnum])
+  let freed := r.frees.map (·.1)
+  -- the entry of the cross-reference stream object itself (unless a tweak sets it)
+  let self : List XE := if t.ents.any (·.1 == lay.xnum) then [] else [⟨lay.xnum, 1, p1, 0⟩]
+  match lay.kind with
+  | 0 =>
+    let es := sortXE (uses ++ frees)
+    let table := XrefSpec.encTable (tableSubs lay es)
+    let tr : List (Bytes × Bytes) := rotate
+      ([(bs "Size", natDigits (maxNum + 1)), (bs "Root", refBytes r.root)] ++
+       (match prev with | some p => [(bs "Prev", pad10 p)] | none => [])) lay.dictOrder
+    let (w, c) := wsOpt lay.ch
+    let (d, c) := spellRaw tr c
+    (body ++ table ++ bs "trailer" ++ w ++ bs "<<" ++ d ++ [10] ++ tailBytes p1 c, p1, ⟨vals, freed, r.root⟩, ⟨places, p1, p1⟩)
+  | 1 =>
+    let es := sortXE (uses ++ mems ++ frees ++ self)
+    let (xb, xv) := renderXrefStream lay p1 es (maxNum + 1) (some r.root) prev
+    (body ++ xb ++ tailBytes p1 lay.ch, p1, ⟨vals ++ memVals ++ [((lay.xnum, 0), xv)], freed, r.root⟩, ⟨places, p1, p1⟩)
+  | _ =>
+    let inStm := uses.filter fun e => t.toStream.contains e.num
+    let inTab := uses.filter fun e => !t.toStream.contains e.num
+    let (xb, xv) := renderXrefStream { lay with omitIndex := false } p1 (sortXE (mems ++ inStm)) (maxNum + 1) none none
+    let p2 := p1 + xb.length
+    let hidden : List XE := r.members.map fun m => ⟨m.1, 0, 0, lay.hiddenGen⟩
+    let es := sortXE (inTab ++ frees ++ hidden ++ self)
+    let table := XrefSpec.encTable (tableSubs lay es)
+    let tr : List (Bytes × Bytes) := rotate
+      ([(bs "Size", natDigits (maxNum + 1)), (bs "Root", refBytes r.root), (bs "XRefStm", natDigits p1)] ++
+       (match prev with | some p => [(bs "Prev", pad10 p)] | none => [])) lay.dictOrder
+    let (w, c) := wsOpt lay.ch
+    let (d, c) := spellRaw tr c
+    (body ++ xb ++ table ++ bs "trailer" ++ w ++ bs "<<" ++ d ++ [10] ++ tailBytes p2 c, p2,
+     ⟨vals ++ memVals ++ [((lay.xnum, 0), xv)], freed, r.root⟩, ⟨places, p2, p1⟩)
+
+def renderRevsT : List (Rev × Tweak) → Nat → List Nat → Bytes × List RevMap × List Said
+  | [], _, _ => ([], [], [])
+  | (r, t) :: rest, pos, xs =>
+    let (b, x, said, m) := renderRevT r t pos xs.getLast?
+    let (bt, ms, saids) := renderRevsT rest (pos + b.length) (xs ++ [x])
+    (b ++ bt, m :: ms, said :: saids)
+
+/-- the file for a history whose revisions carry tweaks (every /Prev automatic) -/
+def renderHistoryT (garbage : Bytes) (binary : Bool) (revs : List (Rev × Tweak)) : Bytes × List RevMap × List Said :=
+  let h := header binary
+  let (b, ms, saids) := renderRevsT revs h.length []
+  (garbage ++ h ++ b, ms, saids)
+
+inductive Target where
+  | none                 -- control: nothing is retargeted
+  | own (a : Nat)        -- the offset the entry of object `a` carries
+  | alt (a : Nat)        -- the other legal offset of `a` (start of its padding / first digit of its number)
+  | inside (a : Nat)     -- one byte into the number of `a`
+  | endobj (a : Nat)     -- the `endobj` keyword of `a`
+  | sect                 -- the cross-reference section of revision `aRev`
+  | stm                  -- the /XRefStm stream object of revision `aRev` (= sect unless hybrid)
+  | header               -- offset 0
+deriving Inhabited, BEq, Repr
+
+/-- a history in which the entry of `b`, written in the section of revision `bRev`, is aimed at `target` in revision `aRev` -/
+structure RetCase where
+  garbage : Bytes
+  binary : Bool
+  revs : List Rev
+  bRev : Nat
+  b : Nat × Nat
+  aRev : Nat
+  target : Target
+  toStream : List (List Nat)       -- per revision
+  exact : Bool                     -- the retargeted entry does not count (control / shadowed by a newer entry): must load exactly
+deriving Inhabited
+
+def targetOfs (rc : RetCase) (maps : List RevMap) : Option Nat :=
+  let m := maps[rc.aRev]?.getD default
+  let pl (a : Nat) : Place := (m.objs.find? (·.num == a)).getD default
+  match rc.target with
+  | .none => Option.none
+  | .own a => some (pl a).ofs
+  | .alt a => let p := pl a; some (if p.ofs == p.numAt then p.padAt else p.numAt)
+  | .inside a => some ((pl a).numAt + 1)
+  | .endobj a => some (pl a).endAt
+  | .sect => some m.sect
+  | .stm => some m.stm
+  | .header => some 0
+
+def tweaksOf (rc : RetCase) (maps : List RevMap) : List Tweak :=
+  rc.revs.zipIdx.map fun (_, i) =>
+    let ts := rc.toStream[i]?.getD []
+    if i == rc.bRev then
+      match targetOfs rc maps with
+      | some o => ⟨[(rc.b.1, rc.b.2, o)], ts⟩
+      | Option.none => ⟨[], ts⟩
+    else ⟨[], ts⟩
+
+/-- Offsets of LATER revisions are not known while an earlier section is written, and the width of an offset field
+    of a cross-reference stream depends on the offsets: render with the offsets of the previous rendering until
+    nothing moves (a classic table needs one round).  Returns the bytes, the Saids, the offset written into the entry
+    and whether the rendering is stable. -/
+def renderRet (rc : RetCase) : Bytes × List Said × Option Nat × Bool :=
+  let go (ts : List Tweak) := renderHistoryT rc.garbage rc.binary (rc.revs.zip ts)
+  let t0 := tweaksOf rc []
+  let (_, m0, _) := go t0
+  let t1 := tweaksOf rc m0
+  let (b1, m1, s1) := go t1
+  let t2 := tweaksOf rc m1
+  if t2 == t1 then (b1, s1, targetOfs rc m1, true)
+  else
+    let (b2, m2, s2) := go t2
+    let t3 := tweaksOf rc m2
+    if t3 == t2 then (b2, s2, targetOfs rc m2, true)
+    else
+      let (b3, m3, s3) := go t3
+      (b3, s3, targetOfs rc m3, tweaksOf rc m3 == t3)
+
+/-- is the case what it claims to be?  Decided on the BYTES: the identifier spelled at the offset the entry carries
+    (`DocSpec.headerAt`: after optional white space / comments `n g obj`) is not the entry's, or nothing is spelled there -/
+def retIsMismatch (rc : RetCase) (bytes : Bytes) (ofs : Nat) : Bool :=
+  headerAt (bytes.drop rc.garbage.length) ofs != some rc.b
+
+def retExpected (rc : RetCase) (saids : List Said) : String :=
+  if !rc.exact then "rejected"
+  else match resolve saids with
+    | (defs, some root) => s!"ok {root.1} {root.2}" ++ showDefs defs
+    | (_, Option.none) => "rejected"
+
+/-- a `ret` / `reth` case is emitted only when its rendering is stable and it is a mismatch (or a control) -/
+def retUsable (rc : RetCase) : Option Bytes :=
+  let (bytes, _, ofs, stable) := renderRet rc
+  if !stable then Option.none
+  else match ofs with
+    | Option.none => if rc.exact then some bytes else Option.none
+    | some o => if rc.exact || retIsMismatch rc bytes o then some bytes else Option.none
+
+def judgeRet (rc : RetCase) (hex impl : String) (wrongWord : String) : String :=
+  let (bytes, saids, ofs, stable) := renderRet rc
+  if hexOfBytes bytes != hex then "bad generator-mismatch the case does not re-derive from its seed"
+  else if !stable then "bad generator-mismatch the rendering is not stable"
+  else if !rc.exact && !(match ofs with | some o => retIsMismatch rc bytes o | Option.none => false) then
+    "bad generator-mismatch the entry's offset spells the entry's own identifier"
+  else
+    let want := retExpected rc saids
+    let got := impl.trimAscii.toString
+    if got == want then "ok"
+    else if got.startsWith "panic" || got.startsWith "crash" || got.startsWith "hang" then s!"bad panic-or-crash {got.take 80}"
+    else if want == "rejected" then "bad accepted-but-must-reject"
+    else if got == "rejected" then "bad wellformed-rejected rejected"
+    else s!"bad {wrongWord} want={(want.take 300)}"
+
+/-- one `ret` case: layout, A, B, target selector (0 own, 1 alt, 2 inside, 3 endobj, 4 sect, 5 header, 6 /XRefStm
+    stream, 7 control), hybrid placement (bit 0: A's entry in the /XRefStm stream, bit 1: B's) -/
+structure RetSel where
+  kind : Nat
+  a : Nat
+  b : Nat
+  tsel : Nat
+  place : Nat
+
+def targetOfSel (tsel a : Nat) : Target :=
+  match tsel with
+  | 0 => .own a
+  | 1 => .alt a
+  | 2 => .inside a
+  | 3 => .endobj a
+  | 4 => .sect
+  | 5 => .header
+  | 6 => .stm
+  | _ => .none
+
+/-- the file-level objects of the `sys` document (see `genSys`): 1, 2 plain; 3 stream with a direct /Length; 4 holder of stream
+    5 (backward); 7, 9 streams with holders 8, 10 (forward: second pass); 13 object-stream container (stream layouts) -/
+def retNums (kind : Nat) : List Nat := [1, 2, 3, 4, 5, 7, 8, 9, 10] ++ (if kind == 0 then [] else [13])
+
+/-- numbers no object carries: between the others / above all -/
+def retAbsent : List Nat := [6, 20]
+
+/-- every case of the family (the same for every seed; the seed picks spellings, padding, file order, table layout) -/
+def retSels : List RetSel :=
+  [0, 1, 2].flatMap fun kind =>
+    let f := retNums kind
+    let places := if kind == 2 then [0, 1, 2, 3] else [0]
+    let bs5 := [1, 3, 7, 6, 20]
+    -- every ordered pair, B's own object present or absent
+    (f.flatMap fun a => (f.filter (· != a) ++ retAbsent).flatMap fun b => places.map fun p => (⟨kind, a, b, 0, p⟩ : RetSel)) ++
+    -- into / next to another object
+    ([2, 5, 9, (if kind == 0 then 4 else 13)].flatMap fun a => bs5.flatMap fun b => [1, 2, 3].map fun t =>
+      (⟨kind, a, b, t, if kind == 2 then (a + b + t) % 4 else 0⟩ : RetSel)) ++
+    -- at the section, the header, the /XRefStm stream
+    (bs5.flatMap fun b => ([4, 5] ++ (if kind == 2 then [6] else [])).map fun t =>
+      (⟨kind, 0, b, t, if kind == 2 then (b + t) % 4 else 0⟩ : RetSel)) ++
+    -- controls: nothing retargeted, every placement
+    (places.map fun p => (⟨kind, 2, 3, 7, p⟩ : RetSel))
+
+def genRet (seed : Nat) (s : RetSel) : RetCase :=
+  let sc := genSys seed s.kind 8
+  match sc.revs with
+  | [(rev, _)] =>
+    let ts := (if s.place % 2 == 1 then [s.a] else []) ++ (if s.place / 2 % 2 == 1 then [s.b] else [])
+    ⟨sc.garbage, sc.binary, [rev], 0, (s.b, 0), 0, targetOfSel s.tsel s.a, [if s.kind == 2 then ts else []], s.tsel ≥ 7⟩
+  | _ => default
+
+def retLine (seed : Nat) (s : RetSel) (bytes : Bytes) : String :=
+  s!"ret {hexOfBytes bytes} {seed} {s.kind} {s.a} {s.b} {s.tsel} {s.place}"
+
 def judge (case impl : String) : String :=
   match judgeCommon case impl with
   | some v => v
   | none =>
     match words case with
+    | ["ret", hex, seed, kind, a, b, tsel, place] =>
+      judgeRet (genRet seed.toNat! ⟨kind.toNat!, a.toNat!, b.toNat!, tsel.toNat!, place.toNat!⟩) hex impl "wrong-load"
     | "garb" :: hex :: seed :: variant :: lk :: ll :: _ :: _ :: tk :: _ =>
       judgeGarb (garbBase seed.toNat! variant.toNat!) hex lk.toNat! ll.toNat! tk.toNat! impl
     | ["doc", hex, seed, variant] => judgeScene (genDoc seed.toNat! variant.toNat!) hex impl
@@ -927,6 +1199,14 @@ def gen (seed n : Nat) (tier : String) (emit : String → IO Unit) : IO Unit := 
     for c in garbSweep (seed + 7 * rep) tier [0, 1, 2, 3 + 4 * ((seed + rep) % 6)] do
       let (doc, _, _, _) := render (garbBase c.seed c.variant)
       emit (garbLine "garb" doc c)
+  -- identity mismatch by retargeting one entry: every ordered pair of objects x layout x placement (the same
+  -- selections for every seed; the seed picks the document's spellings, order and table layout)
+  for rep in List.range (if tier == "thorough" then 4 else 1) do
+    for (sel, i) in retSels.zipIdx do
+      let s := (seed + 11 * rep) * 1013 + i
+      match retUsable (genRet s sel) with
+      | some bytes => emit (retLine s sel bytes)
+      | none => pure ()
   for k in List.range n do
     let s := seed * 100003 + k
     let v := k % 6
@@ -966,6 +1246,9 @@ def nontrivial (line : String) : Bool :=
   | "hist" :: hex :: _ => hex.length ≥ 600
   | "mism" :: _ => true
   | "sys" :: _ => true
+  | "ret" :: _ => true
+  | "reth" :: _ => true
+  | "redef" :: _ => true
   | "w0" :: _ => true
   | "enc" :: _ => true
   | "lenc" :: _ => true
